@@ -14,7 +14,7 @@
 (*   bs, be whether s / e are character boundaries                         *)
 (*   ntok   number of lexer tokens the range tiles exactly, -1 if it cuts  *)
 (*          through a token (0 for an empty range)                         *)
-(*   modpath the range tiles exactly a module path IDENT ("/" IDENT)*       *)
+(*   modpath the range is exactly a module-path node of the file's tree     *)
 (*   os, oe for a focus range: the full range that must contain it         *)
 (*   lsp, sl, sc, el, ec, nl, l16s, l16e  the range after the server's own *)
 (*          conversion to LSP positions (line, UTF-16 column), the number  *)
